@@ -182,9 +182,10 @@ theorem oracleEndBlock_distrInv (s : State) (hr : RatesOk s) (h : DistrInv s) :
     · exact slashAll_rates s _ hr i
     · exact hr i
 
-theorem holderOfHex_ne_distr (h : Str) : holderOfHex h ≠ .distr := by
-  unfold holderOfHex
-  split <;> simp
+/-- a recipient that is paid is never the distribution account: module accounts are left out of the payable recipients -/
+theorem validRcpt_ne_distr (r : Rec) (x : Recipient) (hx : x ∈ validRcpts r) : holderOfHex x.addr ≠ .distr := by
+  unfold validRcpts at hx
+  exact (holderOfHex_payable x.addr (List.mem_filter.mp hx).2).1
 
 theorem settleAll_distr_frame (h : Nat) (f : Option Nat) (ts : List Tenant) :
     ∀ (s : State) (c : Nat), (∀ d, (settleAll h f ts s c).st.bank .distr d = s.bank .distr d) ∧ (settleAll h f ts s c).st.distr = s.distr := by
@@ -195,7 +196,7 @@ theorem settleAll_distr_frame (h : Nat) (f : Option Nat) (ts : List Tenant) :
     have hq : ∀ d, (afterQ s t (settleQ h t f (s.st.recs t.id) s.bank c (s.st.index t.id))).bank .distr d = s.bank .distr d := by
       intro d
       simp only [afterQ]
-      exact settleQ_bank_frame h t f .distr (by simp) _ _ _ _ (fun r _ x _ => holderOfHex_ne_distr x.addr) d
+      exact settleQ_bank_frame h t f .distr (by simp) _ _ _ _ (fun r _ x hx => validRcpt_ne_distr r x hx) d
     rw [settleAll_cons]
     split
     · exact ⟨hq, rfl⟩
